@@ -73,11 +73,12 @@ class C07(Prop):
             c["mval"] = rng.choice((0, 1, 0)) if nbits < 8 else rng.choice((0, 3, 7))
         if op == "chans":
             c["chans"] = rng.sample(range(C), rng.randint(1, min(C, 3)))
+            c["batch"] = rng.choice((1, 2, 200))
         if op == "bands":
             per = rng.choice([p for p in (2, 4, 8) if p <= C and (p * nbits) % 8 == 0] or [C])
             nb = rng.randint(1, C // per)
             cs = rng.randrange(0, C - nb * per + 1)
-            c.update(chanstart=cs, nch=nb * per, per=per)
+            c.update(chanstart=cs, nch=nb * per, per=per, batch=rng.choice((1, 2, 3, 200)))
         if op == "downsample":
             c["tf"] = rng.choice((1, 2, 3, 4))
             ffs = [f for f in (1, 2, 4) if C % f == 0 and ((C // f) * nbits) % 8 == 0]
@@ -123,9 +124,10 @@ class C07(Prop):
             elif op == "samps":
                 outs = [fil.extract_samps(case["s"], case["n"], outfile_name=out, gulp=case["g"], quiet=True)]
             elif op == "chans":
-                outs = fil.extract_chans(np.array(case["chans"]), outfile_base=str(d / "c"), **kw)
+                outs = fil.extract_chans(np.array(case["chans"]), outfile_base=str(d / "c"), batch_size=case.get("batch", 200), **kw)
             elif op == "bands":
-                outs = fil.extract_bands(case["chanstart"], case["nch"], case["per"], outfile_base=str(d / "b"), **kw)
+                outs = fil.extract_bands(case["chanstart"], case["nch"], case["per"], outfile_base=str(d / "b"),
+                                         batch_size=case.get("batch", 200), **kw)
             elif op == "downsample":
                 outs = [fil.downsample(case["tf"], case["ff"], outfile_name=out, **kw)]
             elif op == "subband":
